@@ -600,7 +600,13 @@ func readUntilIdle(c net.Conn, idle, max time.Duration) []byte {
 	buf := make([]byte, 65536)
 	end := time.Now().Add(max)
 	for time.Now().Before(end) {
-		c.SetReadDeadline(time.Now().Add(idle))
+		// (patience for the first byte: a loaded machine may take a while to answer at all; once
+		// the answer has started, `idle` without a byte means the server has sent what it will)
+		wait := idle
+		if len(out) == 0 {
+			wait = time.Until(end)
+		}
+		c.SetReadDeadline(time.Now().Add(wait))
 		n, err := c.Read(buf)
 		out = append(out, buf[:n]...)
 		if err != nil {
